@@ -2,6 +2,8 @@ package main
 
 import (
 	"fmt"
+	"os"
+	"runtime/debug"
 	"time"
 
 	"github.com/orda-io/orda/client/pkg/errors"
@@ -20,6 +22,9 @@ func guarded(obs J, f func()) (hung bool) {
 			if r := recover(); r != nil {
 				obs["panic"] = true
 				obs["panicMsg"] = fmt.Sprint(r)
+				if os.Getenv("VERIF_DEBUG") != "" {
+					obs["panicStack"] = string(debug.Stack())
+				}
 			}
 		}()
 		f()
